@@ -3,7 +3,7 @@ Specs: specs/kbuildx/{KbxText,KbxProps,KbxModel,MCKbx,KbxTrace}.tla; harness: ha
 
 Components (case field `comp`):  cr CompleteRedirects over synthetic ELF images | ls CompileLinkerScript | wo GetOffsets +
 WriteOffsets | ve checkObjcopyVersion / checkXorrisoVersion | cd CheckDeps over a fake PATH | rt CompileRT0 + LinkKernel over
-fake tools (package main);  mm goMajorMinorVersion | gv GoVersion over a fake go tool | oe OverrideEnv | bw WriteOffsets |
+fake tools | ck CompileKernel over a fake go tool, fake objcopy and a harmless build script (package main);  mm goMajorMinorVersion | gv GoVersion over a fake go tool | oe OverrideEnv | bw WriteOffsets |
 do DeriveOffsets over a fake go tool and a synthetic WORK tree (package internal/build)."""
 import concurrent.futures, glob, json, os, random, re
 import vlib
@@ -11,7 +11,7 @@ import vlib
 SPEC = ("kbuildx",)
 MAIN = ["kbuildx/xkb_main_test.go"]
 BUILD = ["kbuildx/xkb_build_test.go"]
-MAIN_COMPS = {"cr", "ls", "wo", "ve", "cd", "rt"}
+MAIN_COMPS = {"cr", "ls", "wo", "ve", "cd", "rt", "ck"}
 
 STATEMENTS = "see the header of specs/kbuildx/KbxProps.tla and tools/manifest/extra-kbuild.json"
 ASSUME = [
@@ -25,8 +25,8 @@ ASSUME = [
     "the version grammar is specified independently (declaratively) in KbxText.tla",
     "determinism (DET) is checked by comparing builds with each other: 2 runs in one process + 1 run in a fresh process per case "
     "(12 + 1 for the pinned reproducers); dependence on Go's map iteration order is detected probabilistically per case",
-    "not covered (needs the cross toolchain or a kernel build): CompileKernel (go build -n script rewriting, objcopy symbol export), "
-    "BuildISO, the real nasm/ld/grub-mkrescue/objcopy runs, gen-version-data.go's main (its three steps GoVersion, DeriveOffsets, "
+    "not covered (needs the cross toolchain or a kernel build): what the real go build -n / nasm / ld / objcopy / grub-mkrescue do with the "
+    "arguments and files they are given, BuildISO, gen-version-data.go's main (its three steps GoVersion, DeriveOffsets, "
     "WriteOffsets are covered one by one), DeriveOffsets against a real toolchain",
 ]
 
@@ -67,9 +67,9 @@ PINNED = [
      "still sees GOARCH=arm (cannot happen with os.Environ(), which never holds duplicates)"),
 ]
 
-BUGS_QUICK = ["CrPartial", "VeLexCompare", "DoUnsortedWalk"]
-DEVS_QUICK = ["LinkerMapOrder"]
-SAMPLE_QUICK = {"cr": 80, "ls": 40, "wo": 30, "ve": 100, "cd": 20, "rt": 30, "mm": 120, "gv": 40, "oe": 120, "bw": 30, "do": 50}
+BUGS_QUICK = ["CrPartial", "LsFirstDefWins", "VeLexCompare", "OePrefixMatch", "DoUnsortedWalk", "CkKeepsMv"]
+DEVS_QUICK = ["LinkerMapOrder", "LastSymbolWins"]
+SAMPLE_QUICK = {"cr": 200, "ls": 100, "wo": 50, "ve": 250, "cd": 40, "rt": 60, "ck": 60, "mm": 300, "gv": 60, "oe": 300, "bw": 60, "do": 120}
 
 
 def all_cfgs(d, prefix):
@@ -110,6 +110,8 @@ def shape(c):
         return (i["tool"], len(i["banner"]) // 6)
     if k == "mm":
         return (len(i["v"]),)
+    if k == "ck":
+        return (len(i["lines"]), len(i["nm"]), i["buildrc"], i["nmrc"], i["objrc"])
     return ()
 
 
@@ -265,7 +267,7 @@ def run(ctx):
     ctx.cov["legs"]["MCKbx" + tier]["cases_replayed"] = len(gcases)
 
     # ---- legs G, T, P on the real packages
-    traces = run_harness(ctx, gcases + pinned, (120, 200) if q else (3000, 5000), True, 2400)
+    traces = run_harness(ctx, gcases + pinned, (300, 500) if q else (3000, 5000), True, 2400)
 
     # ---- leg V
     _, _, mism = judge(ctx, "V-G+T+P", traces, parallel=3 if q else None)
@@ -278,7 +280,7 @@ def run(ctx):
         ncase[leg][comp] += 1
         if runs:
             ctx.distinct([comp, ce["in"]])
-            if shown.get((leg, comp), 0) < 1 and leg in ("G", "T") and comp in ("cr", "ve", "do", "oe") and len(json.dumps(ce["in"])) < 900:
+            if shown.get((leg, comp), 0) < 1 and leg in ("G", "T") and comp in ("cr", "ve", "ck", "oe") and len(json.dumps(ce["in"])) < 900:
                 shown[(leg, comp)] = 1
                 ctx.sample({"leg": leg, "component": comp, "in": ce["in"], "runs": [{"proc": r["proc"], "out": r["out"]} for r in runs[:2]]})
     ctx.cov["legs"]["V-G+T+P"]["cases_by_leg_and_component"] = ncase
